@@ -215,7 +215,8 @@ pub fn gen_line(t: &mut Tape, continuation: bool, allow_empty: bool, unicode: bo
     if allow_empty && t.chance(1, 8) {
         return String::new();
     }
-    let n = t.range(1, 10);
+    // mostly short; now and then a line far beyond 79 columns (wrapping limits, fixed buffers)
+    let n = if t.chance(1, 30) { t.range(60, 300) } else { t.range(1, 10) };
     let mut s = String::new();
     for i in 0..n {
         let mut c: &str = t.weighted(TEXT_CHARS);
